@@ -12,6 +12,7 @@ NAME = "c_result_ty"
 ENGINE = "verus"
 PROPERTIES = {"C01": "C result struct = {union{ok,err} without zero-sized arms; bool is_ok}: member presence decided exactly by zero-sizedness of each arm",
               "C10": "Option<T>/Result<T,E> returns use the same {union; is_ok} wire struct; unit / zero-sized arms have no member",
+              "C13": "a struct disabled for the backend and used as a Result/Option payload is not mistaken for a zero-sized one: it reaches gen_ty_name, which reports the use",
               "C15": "gen_result_ty's unreachable! arms"}
 F = "tool/src/c/ty.rs"
 
@@ -21,18 +22,22 @@ PRELUDE = r"""
 #[verifier::external_body] pub struct TypeContext { x: u8 }
 #[verifier::external_body] pub struct CFormatter { x: u8 }
 #[verifier::external_body] pub struct Field { x: u8 }
-pub struct StructDef { pub fields: Vec<Field> }
-pub struct OutStructDef { pub fields: Vec<Field> }
+pub struct Attrs { pub disable: bool }
+pub struct StructDef { pub fields: Vec<Field>, pub attrs: Attrs }
+pub struct OutStructDef { pub fields: Vec<Field>, pub attrs: Attrs }
 // hir::ReturnableStructDef is #[non_exhaustive] with exactly these two variants
 pub enum ReturnableStructDef<'tcx> { Struct(&'tcx StructDef), OutStruct(&'tcx OutStructDef) }
 #[verifier::external_body] pub struct ReturnableStructPath { x: u8 }
 // whether the struct named by a path has no fields (resolved through the TypeContext; abstract)
 pub uninterp spec fn spec_no_fields(p: ReturnableStructPath, tcx: &TypeContext) -> bool;
+// whether that struct is disabled for this backend: lowering does not lower the fields of a disabled struct ("Only compute fields if the type
+// isn't disabled"), so its HIR field list is empty whatever the Rust struct looks like
+pub uninterp spec fn spec_disabled(p: ReturnableStructPath, tcx: &TypeContext) -> bool;
 impl ReturnableStructPath {
     #[verifier::external_body]
     pub fn resolve<'tcx>(&self, tcx: &'tcx TypeContext) -> (r: ReturnableStructDef<'tcx>)
-        ensures match r { ReturnableStructDef::Struct(s) => (s.fields@.len() == 0) == spec_no_fields(*self, tcx),
-                          ReturnableStructDef::OutStruct(s) => (s.fields@.len() == 0) == spec_no_fields(*self, tcx) }
+        ensures match r { ReturnableStructDef::Struct(s) => (s.fields@.len() == 0) == spec_no_fields(*self, tcx) && s.attrs.disable == spec_disabled(*self, tcx),
+                          ReturnableStructDef::OutStruct(s) => (s.fields@.len() == 0) == spec_no_fields(*self, tcx) && s.attrs.disable == spec_disabled(*self, tcx) }
     { unimplemented!() }
 }
 // hir::Type<OutputOnly>: only the Struct variant is inspected here
@@ -54,7 +59,10 @@ pub struct TyGenContext<'cx, 'tcx> { pub tcx: &'tcx TypeContext, pub formatter: 
 
 // ---- oracle (Rust side: DiplomatResult<T, E> is repr(C) { union { ok: ManuallyDrop<T>, err: ManuallyDrop<E> }, is_ok: bool }; a zero-sized
 // arm occupies no storage and C has no zero-sized members, so the arm is omitted; with both arms zero-sized the union is omitted)
-pub open spec fn zst(t: Type, tcx: &TypeContext) -> bool { match t { Type::Struct(p) => spec_no_fields(p, tcx), _ => false } }
+// an empty HIR field list means "zero-sized Rust struct" only for a struct that was actually lowered; a DISABLED struct used here is not
+// zero-sized, it is a use of a disabled type: it must be handed on to gen_ty_name, which reports it (C13: a disabled type is absent from the
+// backend's symbol uses — never silently declared with another shape)
+pub open spec fn zst(t: Type, tcx: &TypeContext) -> bool { match t { Type::Struct(p) => spec_no_fields(p, tcx) && !spec_disabled(p, tcx), _ => false } }
 pub open spec fn arm_present(t: Option<&Type>, tcx: &TypeContext) -> bool { match t { Some(t) => !zst(*t, tcx), None => false } }
 pub open spec fn spec_result_ty(ok: Option<&Type>, err: Option<&Type>, tcx: &TypeContext) -> CText {
     CText { ok: arm_present(ok, tcx), err: arm_present(err, tcx), union_: arm_present(ok, tcx) || arm_present(err, tcx), is_ok_flag: true }
